@@ -1,4 +1,5 @@
 //! Reference models and generators. This crate must never depend on pilota.
+pub mod faults;
 pub mod rng;
 pub mod tcodec;
 pub mod tval;
